@@ -1,6 +1,13 @@
-"""Exploration driver: enumerates all paths of a harness (work-stealing over processes), decides the
-property's assertions with the solver on every path, replays every path witness natively, writes evidence."""
-import json, os, sys, time, hashlib, re, traceback, random
+"""Exploration driver: enumerates all paths of a harness, decides the property's assertions with the solver
+on every path, replays every path witness natively, writes evidence.
+
+Two exploration modes share the engine:
+  * re-execution (KLEE-style prefix replay) - used by the master to grow a frontier of decision prefixes;
+  * fork mode - a worker replays one prefix and then explores the whole subtree below it with os.fork() at
+    every two-sided decision (the child explores one side to completion and reports through a pipe, the parent
+    then continues with the other side), so no work before a decision point is ever repeated.
+"""
+import json, os, sys, time, hashlib, re, traceback, random, pickle
 import multiprocessing as mp
 import z3
 from . import mirdump, replay as replay_mod
@@ -65,6 +72,32 @@ def input_terms(v, out):
         for x in v.slots: input_terms(x, out)
 
 
+# ---- accumulator ----------------------------------------------------------------------------------
+class Acc:
+    SUMS = ('paths', 'queries', 'asserts', 'replayed', 'agree', 'branch_points', 'forks', 'native_timeouts', 'n_mismatch', 'extra_replays',
+            'unexplored', 'child_crashes')
+    def __init__(s):
+        for k in s.SUMS: setattr(s, k, 0)
+        s.kinds = {}; s.violations = {}; s.mismatches = []; s.unencoded = {}; s.samples = []; s.nontrivial = set(); s.coverage = {}
+        s.fuel_max = 0; s.depth_max = 0
+    def merge(s, o):
+        for k in s.SUMS: setattr(s, k, getattr(s, k) + getattr(o, k))
+        for k, v in o.kinds.items(): s.kinds[k] = s.kinds.get(k, 0) + v
+        for k, v in o.unencoded.items(): s.unencoded[k] = s.unencoded.get(k, 0) + v
+        for k, v in o.coverage.items(): s.coverage[k] = s.coverage.get(k, 0) + v
+        for k, v in o.violations.items():
+            if k in s.violations: s.violations[k]['count'] += v['count']
+            else: s.violations[k] = v
+        s.nontrivial |= o.nontrivial
+        if len(s.samples) < 6: s.samples.extend(o.samples[:6 - len(s.samples)])
+        if len(s.mismatches) < 6: s.mismatches.extend(o.mismatches[:6 - len(s.mismatches)])
+        s.fuel_max = max(s.fuel_max, o.fuel_max); s.depth_max = max(s.depth_max, o.depth_max)
+    def add_violation(s, v):
+        k = v['cls']
+        if k in s.violations: s.violations[k]['count'] += 1
+        else: v['count'] = 1; s.violations[k] = v
+
+
 # ---- per-process state --------------------------------------------------------------------------
 G = {}
 
@@ -79,19 +112,21 @@ def worker_init(mirfiles, replay_path, seed, harness_mod, strict):
     G['harness'] = G['mod'].HARNESS
     G['strict'] = strict
     if hasattr(G['mod'], 'install'): G['mod'].install(e)
+    e.prewarm(getattr(G['harness'], 'crates', ('deb822',)))
 
 
 def run_one(e, h, case, prefix):
-    """execute one path; returns record dict"""
+    """execute one path (in fork mode: this process' path; other paths run in forked children); returns record"""
     e.start_path(prefix)
     e.inputs = {}
     e.fuel_limit = h.fuel if not callable(h.fuel) else h.fuel(case)
-    rec = {'kind': 'ok', 'msg': '', 'queries': 0}
+    rec = {'kind': 'ok', 'msg': '', 'queries': 0, 'asserts': 0}
     pred = None; viol_model = None
     try:
         out = h.run(e, case)
         pred = out.get('pred')
         for label, cond in out.get('checks', []):
+            rec['asserts'] += 1
             if cond is True: continue
             if cond is False:
                 rec['kind'] = 'pred-violation'; rec['msg'] = label; break
@@ -110,14 +145,13 @@ def run_one(e, h, case, prefix):
     except RecursionError:
         rec['kind'] = 'panic'; rec['msg'] = 'stack overflow (python recursion limit)'
     rec['alts'] = e.new_alternatives
-    rec['decisions'] = len(e.decisions)
+    rec['decisions'] = len(e.decisions); rec['forks'] = e.forks
     rec['fuel_used'] = e.fuel
     if rec['kind'] == 'infeasible': return rec, None, None
     try:
         m = viol_model if viol_model is not None else e.get_model()
     except Infeasible:
         rec['kind'] = 'infeasible'; return rec, None, None
-    rec['model'] = m
     witness = conc(m, e.inputs)
     pc = None
     if pred is not None and rec['kind'] == 'ok':
@@ -145,95 +179,134 @@ def more_witnesses(e, k):
     return out
 
 
-def explore_chunk(args):
-    case_idx, case, prefixes, budget = args
-    e = G['e']; h = G['harness']; rp = G['replay']
-    t0 = time.time()
-    res = {'case_idx': case_idx, 'paths': 0, 'kinds': {}, 'violations': [], 'mismatches': [], 'unencoded': {}, 'samples': [],
-           'queries': 0, 'solver_calls0': e.stats['solver_calls'], 'solver_time0': e.stats['solver_time'], 'replayed': 0, 'agree': 0,
-           'branch_points': 0, 'fuel_max': 0, 'nontrivial': set(), 'coverage': {}, 'leftover': [], 'native_timeouts': 0, 'depth_max': 0,
-           'extra_replays': 0}
-    work = list(prefixes)
-    while work and res['paths'] < budget:
-        prefix = work.pop()
+def judge_path(acc, e, h, rp, case, rec, witness, pc):
+    """native replay + oracle + comparison for one finished path"""
+    acc.paths += 1
+    acc.kinds[rec['kind']] = acc.kinds.get(rec['kind'], 0) + 1
+    acc.queries += rec['queries']; acc.asserts += rec['asserts']
+    acc.branch_points += rec['decisions']; acc.forks += rec['forks']
+    acc.fuel_max = max(acc.fuel_max, rec['fuel_used']); acc.depth_max = max(acc.depth_max, e.max_depth)
+    if witness is None: return
+    wkey = hashlib.sha1(json.dumps(witness, sort_keys=True).encode()).hexdigest()[:16]
+    req = h.request(case, witness)
+    native = rp.call(req)
+    acc.replayed += 1
+    if native.get('timeout'): acc.native_timeouts += 1
+    viols = h.oracle(case, witness, native)
+    if h.nontrivial(case, witness): acc.nontrivial.add(wkey)
+    for ck in h.coverage_keys(case, witness, native): acc.coverage[ck] = acc.coverage.get(ck, 0) + 1
+    if viols:
+        for cls, msg in viols:
+            acc.add_violation({'cls': cls, 'msg': msg, 'case': case, 'witness': witness, 'request': req, 'native': native,
+                               'predicted': rec['kind'], 'pmsg': rec['msg']})
+        if rec['kind'] == 'ok':
+            acc.n_mismatch += 1
+            if len(acc.mismatches) < 6: acc.mismatches.append({'why': 'interpreter predicted no violation, native run violates', 'witness': witness, 'viol': viols[0][1][:300]})
+    else:
+        mismatch = None
+        if rec['kind'] in ('pred-violation', 'panic'):
+            mismatch = 'interpreter predicted %s (%s), native run satisfies the oracle' % (rec['kind'], rec['msg'])
+        elif rec['kind'] == 'ok' and pc is not None:
+            diffs = h.compare(case, pc, native)
+            if diffs: mismatch = 'prediction differs from native: ' + '; '.join(diffs[:3])
+        if mismatch:
+            acc.n_mismatch += 1
+            if len(acc.mismatches) < 6: acc.mismatches.append({'why': mismatch[:400], 'witness': witness})
+        elif rec['kind'] == 'ok':
+            acc.agree += 1
+        if rec['kind'] == 'unencoded':
+            acc.unencoded[rec['msg']] = acc.unencoded.get(rec['msg'], 0) + 1
+        if rec['kind'] == 'unencoded' or mismatch:
+            # solver-directed concrete testing of this path: more models of its PC, judged natively
+            for w2 in more_witnesses(e, 8):
+                req2 = h.request(case, w2); n2 = rp.call(req2); acc.extra_replays += 1
+                for cls, msg in h.oracle(case, w2, n2):
+                    acc.add_violation({'cls': cls, 'msg': msg, 'case': case, 'witness': w2, 'request': req2, 'native': n2,
+                                       'predicted': 'unencoded', 'pmsg': rec['msg']})
+    if len(acc.samples) < 3 and wkey[0] == '0' and wkey[1] in '0123':
+        pcs = ''
+        try: pcs = z3.And(*e.pc).sexpr()[:400] if e.pc else 'true'
+        except Exception: pass
+        acc.samples.append({'case': case, 'witness': witness, 'outcome': rec['kind'], 'path_condition_smt2': pcs, 'native_ok': not viols})
+
+
+def safe_run(e, h, case, prefix):
+    try:
+        return run_one(e, h, case, prefix)
+    except Exception as ex:   # engine bug: never silently dropped
+        if os.environ.get('MIRSYM_DEBUG'): traceback.print_exc()
+        rec = {'kind': 'unencoded', 'msg': 'engine error: %s: %s' % (type(ex).__name__, str(ex)[:200]), 'alts': e.new_alternatives,
+               'decisions': len(e.decisions), 'forks': e.forks, 'fuel_used': e.fuel, 'queries': 0, 'asserts': 0}
+        witness = None
         try:
-            rec, witness, pc = run_one(e, h, case, prefix)
-        except Exception as ex:   # engine bug: never silently dropped
-            rec = {'kind': 'unencoded', 'msg': 'engine error: %s: %s' % (type(ex).__name__, str(ex)[:200]), 'alts': e.new_alternatives,
-                   'decisions': len(e.decisions), 'fuel_used': e.fuel, 'queries': 0}
-            witness = None; pc = None
-            if os.environ.get('MIRSYM_DEBUG'): traceback.print_exc()
-            try:
-                m = e.get_model(); witness = conc(m, e.inputs)
-            except Exception: pass
+            m = e.get_model(); witness = conc(m, e.inputs)
+        except Exception: pass
+        return rec, witness, None
+
+
+def finish_task(e, acc, t0, case_idx, leftover, mode='chunk'):
+    return {'mode': mode, 'case_idx': case_idx, 'acc': acc, 'leftover': leftover, 'wall': time.time() - t0,
+            'solver_calls': e.stats['solver_calls'], 'solver_time': e.stats['solver_time'],
+            'fns': {f.crate + '::' + f.name: f.sha for f in e.used_fns}, 'models': sorted(e.used_models)}
+
+
+def explore_chunk(args):
+    """re-execution mode: explore up to `budget` paths below the given prefixes, return the unexplored prefixes"""
+    case_idx, case, prefixes, budget, deadline = args
+    e = G['e']; h = G['harness']; rp = G['replay']
+    e.fork_mode = False
+    t0 = time.time(); sc0, st0 = e.stats['solver_calls'], e.stats['solver_time']
+    acc = Acc()
+    work = list(prefixes)
+    while work and acc.paths < budget:
+        prefix = work.pop()
+        rec, witness, pc = safe_run(e, h, case, prefix)
         work.extend(rec['alts'])
         if rec['kind'] == 'infeasible': continue
-        res['paths'] += 1
-        res['kinds'][rec['kind']] = res['kinds'].get(rec['kind'], 0) + 1
-        res['queries'] += rec['queries']
-        res['branch_points'] += rec['decisions']
-        res['fuel_max'] = max(res['fuel_max'], rec['fuel_used'])
-        res['depth_max'] = max(res['depth_max'], e.max_depth)
-        if witness is None: continue
-        wkey = hashlib.sha1(json.dumps(witness, sort_keys=True).encode()).hexdigest()[:16]
-        # ---- native replay
-        req = h.request(case, witness)
-        native = rp.call(req)
-        res['replayed'] += 1
-        if native.get('timeout'): res['native_timeouts'] += 1
-        viols = h.oracle(case, witness, native)
-        if h.nontrivial(case, witness): res['nontrivial'].add(wkey)
-        for ck in h.coverage_keys(case, witness, native):
-            res['coverage'][ck] = res['coverage'].get(ck, 0) + 1
-        if viols:
-            for cls, msg in viols:
-                res['violations'].append({'cls': cls, 'msg': msg, 'case': case, 'witness': witness, 'request': req, 'native': native,
-                                          'predicted': rec['kind'], 'pmsg': rec['msg']})
-            if rec['kind'] == 'ok':
-                res['mismatches'].append({'why': 'interpreter predicted no violation, native run violates', 'witness': witness, 'viol': viols[0][1]})
-        else:
-            mismatch = None
-            if rec['kind'] in ('pred-violation', 'panic'):
-                mismatch = 'interpreter predicted %s (%s), native run satisfies the oracle' % (rec['kind'], rec['msg'])
-            elif rec['kind'] == 'ok' and pc is not None:
-                diffs = h.compare(case, pc, native)
-                if diffs: mismatch = 'prediction differs from native: ' + '; '.join(diffs[:3])
-            if mismatch:
-                res['mismatches'].append({'why': mismatch, 'witness': witness})
-            elif rec['kind'] == 'ok':
-                res['agree'] += 1
-            if rec['kind'] == 'unencoded':
-                res['unencoded'][rec['msg']] = res['unencoded'].get(rec['msg'], 0) + 1
-            if rec['kind'] in ('unencoded',) or mismatch:
-                # solver-directed concrete testing of this path: more models of its PC, judged natively
-                for w2 in more_witnesses(e, 8):
-                    req2 = h.request(case, w2); n2 = rp.call(req2); res['extra_replays'] += 1
-                    for cls, msg in h.oracle(case, w2, n2):
-                        res['violations'].append({'cls': cls, 'msg': msg, 'case': case, 'witness': w2, 'request': req2, 'native': n2,
-                                                  'predicted': 'unencoded', 'pmsg': rec['msg']})
-        if len(res['samples']) < 3:
-            pcs = ''
-            try: pcs = z3.And(*e.pc).sexpr()[:400] if e.pc else 'true'
-            except Exception: pass
-            res['samples'].append({'case': case, 'witness': witness, 'outcome': rec['kind'], 'path_condition_smt2': pcs,
-                                   'native_ok': not viols})
-    res['leftover'] = work
-    res['solver_calls'] = e.stats['solver_calls'] - res.pop('solver_calls0')
-    res['solver_time'] = e.stats['solver_time'] - res.pop('solver_time0')
-    res['fns'] = {f.crate + '::' + f.name: f.sha for f in e.used_fns}
-    res['models'] = sorted(e.used_models)
-    res['nontrivial'] = list(res['nontrivial'])
-    res['wall'] = time.time() - t0
-    # dedupe violations by class inside the chunk (keep first witness, count)
-    dd = {}
-    for v in res['violations']:
-        k = v['cls']
-        if k in dd: dd[k]['count'] += 1
-        else: v['count'] = 1; dd[k] = v
-    res['violations'] = list(dd.values())
-    res['mismatches'] = res['mismatches'][:5] + ([{'why': '... %d more' % (len(res['mismatches']) - 5)}] if len(res['mismatches']) > 5 else [])
-    res['n_mismatch'] = len(res['mismatches'])
-    return res
+        judge_path(acc, e, h, rp, case, rec, witness, pc)
+    r = finish_task(e, acc, t0, case_idx, work)
+    r['solver_calls'] -= sc0; r['solver_time'] -= st0
+    return r
+
+
+def explore_subtree(args):
+    """fork mode: explore everything below one prefix"""
+    case_idx, case, prefix, deadline = args
+    e = G['e']; h = G['harness']; rp = G['replay']
+    t0 = time.time(); sc0, st0 = e.stats['solver_calls'], e.stats['solver_time']
+    e.fork_mode = True; e.is_child = False; e.collected = []; e.deadline = deadline; e.unexplored = 0; e.child_crashes = 0
+    e.leftover_alts = []; e.slice_deadline = t0 + float(os.environ.get('VERIF_SLICE', '8'))
+    acc = Acc()
+    try:
+        rec, witness, pc = safe_run(e, h, case, prefix)
+        if rec['kind'] != 'infeasible':
+            judge_path(acc, e, h, rp, case, rec, witness, pc)
+    except BaseException as ex:
+        if not e.is_child: raise
+        acc.unencoded['worker exception: %r' % (ex,)] = 1
+    finally:
+        e.fork_mode = False
+        for c in e.collected: acc.merge(c['acc'])
+        acc.unexplored += e.unexplored; acc.child_crashes += e.child_crashes
+        left = list(e.leftover_alts)
+        for c in e.collected: left.extend(c['leftover'])
+        if e.is_child:
+            r = finish_task(e, acc, t0, case_idx, left)
+            for c in e.collected:
+                r['solver_calls'] += c['solver_calls']; r['solver_time'] += c['solver_time']; r['fns'].update(c['fns']); r['models'] = sorted(set(r['models']) | set(c['models']))
+            r['solver_calls'] -= e.fork_sc0; r['solver_time'] -= e.fork_st0
+            try:
+                data = pickle.dumps(r)
+                off = 0
+                while off < len(data): off += os.write(e.out_fd, data[off:off + (1 << 16)])
+            finally:
+                os._exit(0)
+    r = finish_task(e, acc, t0, case_idx, left, 'subtree')
+    r['solver_calls'] -= sc0; r['solver_time'] -= st0
+    for c in e.collected:
+        r['solver_calls'] += c['solver_calls']; r['solver_time'] += c['solver_time']; r['fns'].update(c['fns']); r['models'] = sorted(set(r['models']) | set(c['models']))
+    e.collected = []
+    return r
 
 
 # ---- master -----------------------------------------------------------------------------------------
@@ -243,7 +316,7 @@ def load_known():
     return json.load(open(p))
 
 
-def run_check(harness_mod, tier, seed, jobs=None, wall_budget=None, chunk=40):
+def run_check(harness_mod, tier, seed, jobs=None, wall_budget=None):
     import importlib
     t0 = time.time()
     mod = importlib.import_module(harness_mod)
@@ -264,76 +337,80 @@ def run_check(harness_mod, tier, seed, jobs=None, wall_budget=None, chunk=40):
         print('INCONCLUSIVE: MIR dump not parseable: %s' % ex, file=sys.stderr); return 2
     jobs = jobs or int(os.environ.get('VERIF_JOBS', '16'))
     cases = h.cases(tier)
-    budget = wall_budget or float(os.environ.get('VERIF_WALL', {'quick': 240, 'thorough': 2400}[tier]))
+    budget = wall_budget or float(os.environ.get('VERIF_WALL', {'quick': 200, 'thorough': 2400}[tier]))
+    deadline = t0 + budget
+    use_fork = not os.environ.get('VERIF_NOFORK')
     ctx = mp.get_context('fork')
     pool = ctx.Pool(jobs, initializer=worker_init, initargs=(mirfiles, rpath, seed, harness_mod, strict))
     rng = random.Random(seed)
-    agg = {'paths': 0, 'kinds': {}, 'violations': {}, 'mismatches': [], 'n_mismatch': 0, 'unencoded': {}, 'samples': [], 'queries': 0,
-           'solver_calls': 0, 'solver_time': 0.0, 'replayed': 0, 'agree': 0, 'branch_points': 0, 'fuel_max': 0, 'nontrivial': set(),
-           'coverage': {}, 'fns': {}, 'models': set(), 'native_timeouts': 0, 'depth_max': 0, 'per_case': {}, 'extra_replays': 0}
-    pending = []
-    queue = [(i, c, [[]]) for i, c in enumerate(cases)]
-    rng.shuffle(queue)
-    queue.sort(key=lambda t: t[1].get('order', 0))
+    agg = Acc()
+    meta = {'solver_calls': 0, 'solver_time': 0.0, 'fns': {}, 'models': set(), 'per_case': {}}
+    # queue items: ('chunk', ci, prefixes) or ('subtree', ci, prefix)
+    queue = [('chunk', i, [[]]) for i in range(len(cases))]
+    queue.sort(key=lambda t: cases[t[1]].get('order', 0))
+    frontier_target = jobs * 40
     inflight = 0; exhausted = True
     results = []
-
     def cb(r): results.append(r)
     def ecb(ex): results.append({'error': repr(ex)})
     errors = []
+    pending_prefixes = {i: [] for i in range(len(cases))}   # per case: frontier being grown
+    grown = {i: 0 for i in range(len(cases))}
     while queue or inflight:
-        while queue and inflight < jobs * 2:
-            if time.time() - t0 > budget:
-                exhausted = False; break
-            ci, case, prefixes = queue.pop(0)
-            pool.apply_async(explore_chunk, ((ci, case, prefixes, chunk),), callback=cb, error_callback=ecb)
+        while queue and inflight < jobs + 2:
+            if time.time() > deadline:
+                break
+            kind, ci, payload = queue.pop(0)
+            if kind == 'chunk':
+                pool.apply_async(explore_chunk, ((ci, cases[ci], payload, 4, deadline),), callback=cb, error_callback=ecb)
+            else:
+                pool.apply_async(explore_subtree, ((ci, cases[ci], payload, deadline),), callback=cb, error_callback=ecb)
             inflight += 1
-        if time.time() - t0 > budget and queue:
+        if time.time() > deadline and queue:
             exhausted = False
-            agg['unexplored_prefixes'] = agg.get('unexplored_prefixes', 0) + sum(len(p) for _, _, p in queue)
+            for kind, ci, payload in queue: agg.unexplored += (len(payload) if kind == 'chunk' else 1)
             queue = []
         if not results:
-            time.sleep(0.01); continue
+            time.sleep(0.005); continue
         r = results.pop(); inflight -= 1
         if 'error' in r:
             errors.append(r['error']); continue
         ci = r['case_idx']
-        pc_ = agg['per_case'].setdefault(ci, {'paths': 0})
-        pc_['paths'] += r['paths']
-        for k in ('paths', 'queries', 'solver_calls', 'solver_time', 'replayed', 'agree', 'branch_points', 'native_timeouts', 'n_mismatch', 'extra_replays'):
-            agg[k] += r[k]
-        agg['fuel_max'] = max(agg['fuel_max'], r['fuel_max']); agg['depth_max'] = max(agg['depth_max'], r['depth_max'])
-        for k, v in r['kinds'].items(): agg['kinds'][k] = agg['kinds'].get(k, 0) + v
-        for k, v in r['unencoded'].items(): agg['unencoded'][k] = agg['unencoded'].get(k, 0) + v
-        for k, v in r['coverage'].items(): agg['coverage'][k] = agg['coverage'].get(k, 0) + v
-        agg['nontrivial'].update(r['nontrivial'])
-        agg['fns'].update(r['fns']); agg['models'].update(r['models'])
-        if len(agg['samples']) < 6: agg['samples'].extend(r['samples'][:2])
-        agg['mismatches'].extend(r['mismatches'])
-        for v in r['violations']:
-            k = v['cls']
-            if k in agg['violations']: agg['violations'][k]['count'] += v['count']
-            else: agg['violations'][k] = v
+        pc_ = meta['per_case'].setdefault(ci, {'paths': 0, 'cpu_s': 0.0})
+        pc_['paths'] += r['acc'].paths; pc_['cpu_s'] += r['wall']
+        agg.merge(r['acc'])
+        meta['solver_calls'] += r['solver_calls']; meta['solver_time'] += r['solver_time']
+        meta['fns'].update(r['fns']); meta['models'].update(r['models'])
         left = r['leftover']
-        if left:
-            # split leftovers into several tasks for load balancing
+        if left and r.get('mode') == 'subtree':
             rng.shuffle(left)
-            n = max(1, min(len(left), 4))
-            for j in range(n):
-                part = left[j::n]
-                if part: queue.append((ci, cases[ci], part))
+            for p in left: queue.append(('subtree', ci, p))
+        elif left:
+            grown[ci] += len(left)
+            if use_fork and len(left) + sum(1 for q in queue if q[1] == ci and q[0] == 'chunk') * 3 >= max(48, frontier_target // max(1, len(cases))):
+                rng.shuffle(left)
+                for p in left: queue.append(('subtree', ci, p))
+            else:
+                # keep growing the frontier by re-execution, a few prefixes per task
+                rng.shuffle(left)
+                n = max(1, min(len(left), 6))
+                for j in range(n):
+                    part = left[j::n]
+                    if part: queue.append(('chunk', ci, part))
     pool.close(); pool.terminate()
     wall = time.time() - t0
+    if agg.unexplored: exhausted = False
 
     # ---- verdict
     known = [k for k in load_known() if k['property'] == h.id]
     unknown = []; matched = {}
-    for cls, v in sorted(agg['violations'].items()):
+    for cls, v in sorted(agg.violations.items()):
         hit = None
         for k in known:
             if k.get('status', 'known') == 'known' and re.fullmatch(k['cls'], cls): hit = k; break
         if hit is None: unknown.append(v)
-        else: matched.setdefault(hit['id'], {'entry': hit, 'count': 0, 'witness': v['witness']})['count'] += v['count']
+        else:
+            mt = matched.setdefault(hit['id'], {'entry': hit, 'count': 0, 'witness': v['witness']}); mt['count'] += v['count']
     os.makedirs(os.path.join(ROOT, 'replays'), exist_ok=True)
     vio_lines = []
     for v in unknown:
@@ -342,32 +419,34 @@ def run_check(harness_mod, tier, seed, jobs=None, wall_budget=None, chunk=40):
         json.dump({'property': h.id, 'harness': harness_mod, 'cls': v['cls'], 'msg': v['msg'], 'case': v['case'], 'witness': v['witness'],
                    'request': v['request'], 'native': v['native']}, open(path, 'w'), indent=1, ensure_ascii=True)
         vio_lines.append('VIOLATION property=%s replay=%s' % (h.id, path))
-        print('  class: %s\n  what: %s\n  witness: %s' % (v['cls'], v['msg'][:300], json.dumps(v['witness'])[:300]))
+        print('  class: %s (%d paths, interpreter predicted: %s)\n  what: %s\n  witness: %s' % (v['cls'], v['count'], v['predicted'], v['msg'][:300], json.dumps(v['witness'])[:300]))
     for kid, mt in sorted(matched.items()):
         print('KNOWN-FINDING: property=%s %s (%s; %d paths; e.g. %s)' % (h.id, mt['entry']['what'], kid, mt['count'], json.dumps(mt['witness'])[:160]))
     for l in vio_lines: print(l)
+    n_unenc = sum(agg.unencoded.values())
     ev = {
         'property_id': h.id, 'tier': tier, 'seed': seed, 'level': h.level,
         'coverage': {
-            'states': max(agg['paths'], 1), 'transitions': max(agg['branch_points'], 1),
-            'traces_validated_against_impl': agg['agree'],
-            'samples': agg['samples'][:6] or [{'note': 'no path explored'}],
-            'evaluations': max(agg['paths'], 1), 'distinct_nontrivial': len(agg['nontrivial']),
+            'states': max(agg.paths, 1), 'transitions': max(agg.branch_points, 1),
+            'traces_validated_against_impl': agg.agree,
+            'samples': agg.samples[:6] or [{'note': 'no path explored'}],
+            'evaluations': max(agg.paths, 1), 'distinct_nontrivial': len(agg.nontrivial),
             'rule': 'one evaluation = one explored execution path (distinct path condition) of the harness through the real MIR; '
                     'distinct_nontrivial counts distinct path witnesses (by hash of the concrete input) that the harness classifies as non-trivial',
-            'exhaustive': bool(exhausted and not errors and not agg['unencoded'] and not agg['n_mismatch']),
-            'explanation': 'states = explored paths (distinct path conditions); transitions = solver-decided branch points along them; '
-                           'every path witness is replayed on the real build and compared with the interpreter\'s prediction',
-            'path_outcomes': agg['kinds'], 'queries_discharged': agg['queries'], 'solver_calls': agg['solver_calls'],
-            'solver_time_s': round(agg['solver_time'], 2), 'witnesses_replayed': agg['replayed'], 'extra_replays': agg['extra_replays'],
-            'native_timeouts': agg['native_timeouts'],
-            'encoding_mismatches': agg['n_mismatch'], 'mismatch_samples': agg['mismatches'][:5],
-            'unencoded_paths': sum(agg['unencoded'].values()), 'unencoded_reasons': dict(sorted(agg['unencoded'].items(), key=lambda t: -t[1])[:10]),
-            'unexplored_prefixes': agg.get('unexplored_prefixes', 0),
-            'fuel_max_blocks': agg['fuel_max'], 'recursion_depth_max': agg['depth_max'],
+            'exhaustive': bool(exhausted and not errors and not n_unenc and not agg.n_mismatch and not agg.child_crashes),
+            'explanation': 'states = explored paths (distinct path conditions); transitions = branch decisions taken along them (two-sided forks: %d); '
+                           'every path witness is replayed on the real build and compared with the interpreter\'s prediction' % agg.forks,
+            'path_outcomes': agg.kinds, 'assertions_decided': agg.asserts, 'queries_discharged': agg.queries, 'solver_calls': meta['solver_calls'],
+            'solver_time_s': round(meta['solver_time'], 2), 'witnesses_replayed': agg.replayed, 'extra_replays': agg.extra_replays,
+            'native_timeouts': agg.native_timeouts,
+            'encoding_mismatches': agg.n_mismatch, 'mismatch_samples': agg.mismatches[:5],
+            'unencoded_paths': n_unenc, 'unencoded_reasons': dict(sorted(agg.unencoded.items(), key=lambda t: -t[1])[:10]),
+            'unexplored_prefixes': agg.unexplored, 'child_crashes': agg.child_crashes,
+            'fuel_max_blocks': agg.fuel_max, 'recursion_depth_max': agg.depth_max,
             'bounds': h.bounds.get(tier, {}) if isinstance(h.bounds, dict) else {},
-            'cases': len(cases), 'coverage_table': dict(sorted(agg['coverage'].items())),
-            'functions_encoded': dict(sorted(agg['fns'].items())), 'models_used': sorted(agg['models']),
+            'cases': len(cases), 'per_case': [dict(case=cases[i], paths=v['paths'], cpu_s=round(v['cpu_s'], 1)) for i, v in sorted(meta['per_case'].items())],
+            'coverage_table': dict(sorted(agg.coverage.items())),
+            'functions_encoded': dict(sorted(meta['fns'].items())), 'models_used': sorted(meta['models']),
             'mir': {'tree_hash': th, 'statements': prog.statements, 'functions': len(prog.all), 'dump_s': round(dump_s, 1)},
             'known_findings_matched': {k: v['count'] for k, v in matched.items()},
             'oracle_leniency': h.oracle_leniency, 'worker_errors': errors[:5],
@@ -377,17 +456,17 @@ def run_check(harness_mod, tier, seed, jobs=None, wall_budget=None, chunk=40):
     }
     os.makedirs(os.path.join(ROOT, 'evidence'), exist_ok=True)
     json.dump(ev, open(os.path.join(ROOT, 'evidence', h.id + '.json'), 'w'), indent=1, default=str)
-    print('[%s %s] paths=%d outcomes=%s queries=%d solver=%.1fs replayed=%d agree=%d mismatches=%d unencoded=%d exhaustive=%s wall=%.1fs (setup %.1fs)'
-          % (h.id, tier, agg['paths'], agg['kinds'], agg['queries'], agg['solver_time'], agg['replayed'], agg['agree'], agg['n_mismatch'],
-             sum(agg['unencoded'].values()), ev['coverage']['exhaustive'], wall, setup_s), file=sys.stderr)
-    if agg['n_mismatch']:
-        for mm in agg['mismatches'][:3]: print('  ENCODING-MISMATCH: %s' % json.dumps(mm)[:400], file=sys.stderr)
-    for k, v in sorted(agg['unencoded'].items(), key=lambda t: -t[1])[:5]: print('  UNENCODED paths=%d reason=%s' % (v, k), file=sys.stderr)
+    print('[%s %s] paths=%d outcomes=%s asserts=%d queries=%d solver=%.1fs replayed=%d agree=%d mismatches=%d unencoded=%d unexplored=%d exhaustive=%s wall=%.1fs (setup %.1fs)'
+          % (h.id, tier, agg.paths, agg.kinds, agg.asserts, agg.queries, meta['solver_time'], agg.replayed, agg.agree, agg.n_mismatch,
+             n_unenc, agg.unexplored, ev['coverage']['exhaustive'], wall, setup_s), file=sys.stderr)
+    for i, v in sorted(meta['per_case'].items()): print('  case %s: paths=%d cpu=%.0fs' % (json.dumps(cases[i]), v['paths'], v['cpu_s']), file=sys.stderr)
+    for mm in agg.mismatches[:3]: print('  ENCODING-MISMATCH: %s' % json.dumps(mm)[:500], file=sys.stderr)
+    for k, v in sorted(agg.unencoded.items(), key=lambda t: -t[1])[:5]: print('  UNENCODED paths=%d reason=%s' % (v, k), file=sys.stderr)
     if errors:
         print('INCONCLUSIVE: worker errors: %s' % errors[:3], file=sys.stderr); return 2
     if unknown: return 1
-    if strict and (agg['n_mismatch'] or agg['unencoded']): return 2
-    if agg['paths'] == 0:
+    if strict and (agg.n_mismatch or n_unenc): return 2
+    if agg.paths == 0:
         print('INCONCLUSIVE: no path explored', file=sys.stderr); return 2
     return 0
 
